@@ -19,6 +19,7 @@ package ledger
 //@ ghost nCommit int
 //@ ghost committedLogs int
 //@ ghost committedFnRuns int
+//@ ghost maxLogID int
 //@ ghost lastBalances map[string]map[string]*big.Int
 //@ ghost lastRevertModified bool
 //@ ghost findSchemaCalls int
@@ -57,9 +58,16 @@ package ledger
 //@   ensures open == store(old(open), s, false) && closed == store(old(closed), s, old(open)[s] || old(closed)[s])
 //@   ensures nClosed == old(nClosed) + (old(open)[s] ? 1 : 0)
 
+// maxLogID: the largest log id present in the ledger (-1: none). A log inserted with an explicit id (import) must continue
+// the journal (requires, imposed from C08); the id of a log inserted without one is assigned by the database sequence
+// (assumed to be larger than every id present).
 //@ assumed func (s Store) InsertLog(ctx context.Context, log *ledger.Log) (err error)
 //@   requires log != nil
-//@   modifies writes, logs, log
+//@   requires log.ID != nil ==> deref(log.ID) > maxLogID
+//@   modifies writes, logs, log, maxLogID
+//@   ensures err == nil && old(log.ID) != nil ==> maxLogID == deref(old(log.ID))
+//@   ensures err == nil && old(log.ID) == nil ==> maxLogID > old(maxLogID)
+//@   ensures err != nil ==> maxLogID == old(maxLogID)
 //@   ensures writes == store(old(writes), s, old(writes)[s] + 1)
 //@   ensures err == nil ==> logs == store(old(logs), s, old(logs)[s] + 1)
 //@   ensures err != nil ==> logs == old(logs)
@@ -145,7 +153,7 @@ package ledger
 //@ func (lp *logProcessor[INPUT, OUTPUT]) runLog(ctx context.Context, store Store, parameters Parameters[INPUT], fn func(ctx context.Context, sqlTX Store, schema *ledger.Schema, parameters Parameters[INPUT]) (*OUTPUT, error)) (log *ledger.Log, output *OUTPUT, err error)
 //@   property C07 C08 C13 C29 C31
 //@   requires !closed[store]
-//@   modifies writes, logs, fnRuns, findSchemaCalls, findSchemaNotFound, findSchemaFailed, latestCalls, latestNil, latestFailed, needsSchema, validateFailed, validateCalls
+//@   modifies writes, logs, maxLogID, fnRuns, findSchemaCalls, findSchemaNotFound, findSchemaFailed, latestCalls, latestNil, latestFailed, needsSchema, validateFailed, validateCalls
 //@   ensures parameters.SchemaVersion != "" ==> findSchemaCalls == old(findSchemaCalls) + 1
 //@   ensures parameters.SchemaVersion != "" && findSchemaFailed ==> err != nil && fnRuns == old(fnRuns) && logs == old(logs)
 //@   ensures parameters.SchemaVersion != "" && findSchemaNotFound && !latestFailed ==> isErr(err, ErrSchemaNotFound)
@@ -174,7 +182,7 @@ package ledger
 //@ func (lp *logProcessor[INPUT, OUTPUT]) runTx(ctx context.Context, store Store, parameters Parameters[INPUT], fn func(ctx context.Context, sqlTX Store, schema *ledger.Schema, parameters Parameters[INPUT]) (*OUTPUT, error)) (log *ledger.Log, output *OUTPUT, err error)
 //@   property C07 C08 C13 C31
 //@   requires allocated[store] && !closed[store]
-//@   modifies allocated, open, closed, nBegin, nClosed, nCommit, committedLogs, committedFnRuns, writes, logs, fnRuns, findSchemaCalls, findSchemaNotFound, findSchemaFailed, latestCalls, latestNil, latestFailed, needsSchema, validateFailed, validateCalls
+//@   modifies allocated, open, closed, nBegin, nClosed, nCommit, committedLogs, committedFnRuns, writes, logs, maxLogID, fnRuns, findSchemaCalls, findSchemaNotFound, findSchemaFailed, latestCalls, latestNil, latestFailed, needsSchema, validateFailed, validateCalls
 //@   ensures nBegin - old(nBegin) == nClosed - old(nClosed)
 //@   ensures forall h Store :: {writes[h]} {old(writes)[h]} old(allocated)[h] ==> writes[h] == old(writes)[h]
 //@   ensures forall h Store :: {closed[h]} {old(closed)[h]} old(allocated)[h] ==> closed[h] == old(closed)[h]
@@ -192,7 +200,7 @@ package ledger
 //@ func (lp *logProcessor[INPUT, OUTPUT]) forgeLogRetry(ctx context.Context, store Store, parameters Parameters[INPUT], fn func(ctx context.Context, store Store, schema *ledger.Schema, parameters Parameters[INPUT]) (*OUTPUT, error)) (log *ledger.Log, output *OUTPUT, hit bool, err error)
 //@   property C07 C08 C13 C31
 //@   requires allocated[store] && !closed[store]
-//@   modifies allocated, open, closed, nBegin, nClosed, nCommit, committedLogs, committedFnRuns, writes, logs, fnRuns, findSchemaCalls, findSchemaNotFound, findSchemaFailed, latestCalls, latestNil, latestFailed, needsSchema, validateFailed, validateCalls
+//@   modifies allocated, open, closed, nBegin, nClosed, nCommit, committedLogs, committedFnRuns, writes, logs, maxLogID, fnRuns, findSchemaCalls, findSchemaNotFound, findSchemaFailed, latestCalls, latestNil, latestFailed, needsSchema, validateFailed, validateCalls
 //@   ensures nBegin - old(nBegin) == nClosed - old(nClosed)
 //@   ensures forall h Store :: {writes[h]} {old(writes)[h]} old(allocated)[h] ==> writes[h] == old(writes)[h]
 //@   ensures forall h Store :: {closed[h]} {old(closed)[h]} old(allocated)[h] ==> closed[h] == old(closed)[h]
@@ -219,7 +227,7 @@ package ledger
 //@ func (lp *logProcessor[INPUT, OUTPUT]) forgeLog(ctx context.Context, store Store, parameters Parameters[INPUT], fn func(ctx context.Context, store Store, schema *ledger.Schema, parameters Parameters[INPUT]) (*OUTPUT, error)) (log *ledger.Log, output *OUTPUT, hit bool, err error)
 //@   property C07 C08 C13 C31
 //@   requires allocated[store] && !closed[store]
-//@   modifies allocated, open, closed, nBegin, nClosed, nCommit, committedLogs, committedFnRuns, writes, logs, fnRuns, findSchemaCalls, findSchemaNotFound, findSchemaFailed, latestCalls, latestNil, latestFailed, needsSchema, validateFailed, validateCalls
+//@   modifies allocated, open, closed, nBegin, nClosed, nCommit, committedLogs, committedFnRuns, writes, logs, maxLogID, fnRuns, findSchemaCalls, findSchemaNotFound, findSchemaFailed, latestCalls, latestNil, latestFailed, needsSchema, validateFailed, validateCalls
 //@   ensures nBegin - old(nBegin) == nClosed - old(nClosed)
 //@   ensures forall h Store :: {writes[h]} {old(writes)[h]} old(allocated)[h] ==> writes[h] == old(writes)[h]
 //@   ensures forall h Store :: {closed[h]} {old(closed)[h]} old(allocated)[h] ==> closed[h] == old(closed)[h]
@@ -498,6 +506,25 @@ package ledger
 
 //@ func (ctrl *DefaultController) importLog(ctx context.Context, store Store, log ledger.Log) (err error)
 //@   property C38 C07 C28
-//@   requires log.ID != nil
-//@   modifies writes, logs, lastRevertModified, findSchemaCalls, findSchemaNotFound, findSchemaFailed
+//@   requires log.ID != nil && deref(log.ID) > maxLogID
+//@   modifies writes, logs, maxLogID, lastRevertModified, findSchemaCalls, findSchemaNotFound, findSchemaFailed
+//@   ensures maxLogID >= old(maxLogID)
+//@   ensures err == nil ==> maxLogID == deref(log.ID)
 //@   ensures forall h Store :: {writes[h]} {old(writes)[h]} h != store ==> writes[h] == old(writes)[h]
+
+//@ assumed func (r common.PaginatedResource[ledger.Log, any]) Paginate(ctx context.Context, paginationOptions common.PaginatedQuery[any]) (c *paginate.Cursor[ledger.Log], err error)
+//@   ensures err == nil ==> c != nil
+//@   ensures err == nil && len(c.Data) > 0 ==> c.Data[0].ID != nil && deref(c.Data[0].ID) == maxLogID
+//@   ensures err == nil && len(c.Data) == 0 ==> maxLogID == 0 - 1
+//@   note the logs resource lists in descending id order by default: the first row of the first page carries the largest id
+
+//@ func (ctrl *DefaultController) Import(ctx context.Context, stream chan ledger.Log) (err error)
+//@   property C08 C38
+//@   requires allocated[ctrl.store] && !closed[ctrl.store]
+//@   modifies allocated, open, closed, nBegin, nClosed, nCommit, committedLogs, committedFnRuns, writes, logs, maxLogID, lastRevertModified, findSchemaCalls, findSchemaNotFound, findSchemaFailed
+//@   ensures maxLogID >= old(maxLogID)
+//@   loop 1:
+//@     invariant allocated[ctrl.store] && !closed[ctrl.store]
+//@     invariant lastLogID == nil ==> maxLogID == 0 - 1
+//@     invariant lastLogID != nil ==> deref(lastLogID) == maxLogID
+//@     invariant maxLogID >= old(maxLogID)
